@@ -29,21 +29,34 @@ def dec(q):
     return s
 
 
+XSP = ["plain", "plus", "dot", "neg"]
+
+
+def xtext(x, sp):
+    return {"plain": "%d", "plus": "+%d", "dot": ".%d", "neg": "-%d"}[sp] % x
+
+
+def xvalue(x, sp):
+    return {"plain": float(x), "plus": float(x), "dot": x / 10.0, "neg": -float(x)}[sp]
+
+
 def file_text(case, style):
     lines = []
+    sp = XSP[(style // 2) % 4]
     for l in case["file"]:
+        l = dict(l, x=xtext(l["x"], sp))
         y = "".join(str(d) for d in l["y"])
         if len(y) == 2 and style % 2:
             y = y[0] + "." + y[1]                      # "4.5" instead of "45"
         k = l["kind"]
         if k == "data":
-            lines.append("%d %s" % (l["x"], y))
+            lines.append("%s %s" % (l["x"], y))
         elif k == "data-trail":
-            lines.append("%d\t%s  " % (l["x"], y))
+            lines.append("%s\t%s  " % (l["x"], y))
         elif k == "indented":
-            lines.append("   %d   %s" % (l["x"], y))
+            lines.append("   %s   %s" % (l["x"], y))
         elif k == "comment":
-            lines.append("# %d %s" % (l["x"], y))
+            lines.append("# %s %s" % (l["x"], y))
         else:
             lines.append("")
     return "\n".join(lines) + ("\n" if case["nl"] else ""), style % 2
@@ -77,6 +90,9 @@ def main(prop, tier, seed):
         run.notes["unrepaired_model_violates"] = r2.violated
         if r2.violated != "FileReadOK":
             run.machinery("anti-vacuity: the reader that strips the last character should violate FileReadOK, TLC says %r" % r2.violated)
+        r3 = tlc.run("TableForm", "TableForm_digitfirst.cfg", timeout=600)
+        if r3.violated != "FileReadOK":
+            run.machinery("anti-vacuity: the reader that keeps only lines starting with a digit should violate FileReadOK, TLC says %r" % r3.violated)
         if run.machinery_errors:
             return run.finish()
 
@@ -99,7 +115,11 @@ def main(prop, tier, seed):
             run.replayed += 1
             if len(d) >= 2:
                 run.distinct("reader:" + json.dumps(d))
-            for qv in c["vals"]:
+            # the value at x is a function of the table and x alone: the same reader is asked in ascending, descending and two
+            # shuffled orders (a second pass starts inside the table, look-ups jump back by several rows)
+            qs = list(c["vals"])
+            passes = qs + qs[::-1] + rnd.sample(qs, len(qs)) + rnd.sample(qs, len(qs))
+            for qv in passes:
                 x, want = fl(qv["q"]), fl(qv["v"])
                 run.evaluations += 1
                 try:
@@ -113,7 +133,8 @@ def main(prop, tier, seed):
         # ---- (b) file shapes
         for idx, c in enumerate(files):
             text, dotted = file_text(c, idx)
-            want = sorted((x, yval(y, dotted)) for x, y in c["data"])
+            sp = XSP[(idx // 2) % 4]
+            want = sorted((xvalue(x, sp), yval(y, dotted)) for x, y in c["data"])
             run.replayed += 1
             run.evaluations += 1
             nonl = not c["nl"]
